@@ -46,6 +46,7 @@ func settle(w *world.World) bool {
 
 func build(sc diffScenario, mask uint) *world.World {
 	w := osw.NewWorld()
+	w.LongLived() // the scripted history runs in one operator process
 	if mask != 0 {
 		w.Notes["delegated"] = "yes"
 	}
